@@ -139,7 +139,22 @@ def run(report, index, tier):
         return out
 
     leaf = lambda n: mk(n)   # noqa: E731
+
+    def unary(name, kid):
+        # like UnaryExpr / PostfixExpr: the operand is kept in `.value`
+        o = mk(name, kid)
+        o.value = kid
+        o.op = '!'
+        return o
+
+    def scalar(name):
+        # like Identifier / Number: a string in `.value`
+        o = mk(name)
+        o.value = name
+        return o
     trees = [
+        mk('r', unary('u', mk('f', leaf('x'), scalar('y'))), scalar('z')),
+        mk('r', unary('a', unary('u', leaf('x')))),
         mk('r'),
         mk('r', leaf('a')),
         mk('r', None, leaf('a'), None),
